@@ -12,6 +12,7 @@ from vlib import harness
 
 ID = "C16"
 LEVEL = "exploration"
+ENGINE = "vkernel+sched"
 TECHNIQUE = "runtime monitor: version-stamped reads + cache reference model; deterministic bounded-preemption schedule enumeration (sys.settrace) for the thread-safety clause"
 RULE = ("part 1: random event sequences (enter, nested enter, exit, exit-by-exception, method call, vanish, deny, as_dict with "
         "valid/invalid attrs) on one object checked against a cache model (version of every returned value, opens of "
